@@ -146,3 +146,23 @@ package bastion
 //@   invariant#1 0 <= i && i <= k && cat2(encPre(row, off, i), encRest(row, off, i, k, cp)) == cat2(encPre(row, off, k), "\n" ++ cp)
 //@   decreases#1 i
 
+
+// FeedBastion files every configured log under the ID it carries (config.NewLog made that ID from the origin:
+// precondition), and serves exactly that table with the witness and verifier it was given.
+//@ func connectAndServe
+//@   assumed
+//@   modifies heap
+
+//@ func FeedBastion
+//@   returns (err)
+//@   requires w != nil
+//@   requires forall j int :: 0 <= j && j < len(c.Logs) ==> c.Logs[j].ID == ID(c.Logs[j].Origin)
+//@   modifies heap
+//@   // what is handed to connectAndServe (h is FeedBastion's local handler)
+//@   atcall[C12.fb,C10.fb] connectAndServe: h != nil && h.w == w && h.witVerifier == c.WitnessVerifier && h.limiter != nil && h.logs != nil
+//@   atcall[C12.fb,C10.fb] connectAndServe: forall k string :: k in h.logs ==> h.logs[k].ID == k && k == ID(h.logs[k].Origin)
+//@   atcall[C12.fb,C10.fb] connectAndServe: forall j int :: 0 <= j && j < len(c.Logs) ==> c.Logs[j].ID in h.logs
+//@   invariant#1 0 <= $i && $i <= len(c.Logs) && h != nil && h.logs != nil && h.limiter != nil && h.w == w && h.witVerifier == c.WitnessVerifier
+//@   invariant#1 forall k string :: k in h.logs ==> h.logs[k].ID == k && k == ID(h.logs[k].Origin)
+//@   invariant#1 forall j int :: 0 <= j && j < $i ==> c.Logs[j].ID in h.logs
+//@   decreases#1 len(c.Logs) - $i
